@@ -57,6 +57,7 @@ Hypothesis HsB : sorted LB.
 Hypothesis HcB : closed LB.
 Hypothesis Hlinks : links_ok B.
 Hypothesis Hfaith : identity_faithful d A B.
+Variable n0 : N.     (* inode classes >= n0 are new *)
 
 Notation removed_root := (removed_root idf LA LB).
 Notation run := (run idf d LA LB).
@@ -134,12 +135,16 @@ Definition hidden_done (R : list stat) (p : bytes) : Prop :=
 
 Notation unchanged := (AbsDest.unchanged d A B).
 
+Notation fresh_target := (AbsDest.fresh_target d A B).
+Notation fresh_entry := (AbsDest.fresh_entry B n0).
+
 Record dinv (D : dmap) (R : list stat) : Prop := {
   dv_M : forall p, In p (paths LA) \/ In p (paths LB) -> In p (paths R) \/ done R p;
   dv_P1 : forall p, done R p -> view_equiv (alookup p D) (efind p B);
   dv_P2a : forall p, pending R p -> hidden_done R p -> alookup p D = None;
   dv_P2b : forall p, pending R p -> ~ hidden_done R p -> alookup p D = alookup p D0;
-  dv_P3 : forall p, done R p -> unchanged p -> alookup p D = alookup p D0 }.
+  dv_P3 : forall p, done R p -> unchanged p -> alookup p D = alookup p D0;
+  dv_P4 : forall p, done R p -> fresh_target p -> fresh_entry p (alookup p D) }.
 
 Definition rr_at (x : bytes) : Prop := exists q, removed_root q /\ st_path q = x.
 
@@ -156,9 +161,10 @@ Lemma step_inv D D' R R' x :
   (forall p, above x p = true -> rr_at x -> alookup p D' = None) ->
   (forall p, above x p = true -> ~ rr_at x -> alookup p D' = alookup p D \/ alookup p D0 = None) ->
   (unchanged x -> alookup x D' = alookup x D0) ->
+  (fresh_target x -> fresh_entry x (alookup x D')) ->
   dinv D' R'.
 Proof.
-  intros [M P1 P2a P2b P3] Hsub Hcov Hx Hmin Hlt E1 E3 E4a E4b E4c E5.
+  intros [M P1 P2a P2b P3 P4] Hsub Hcov Hx Hmin Hlt E1 E3 E4a E4b E4c E5 E6.
   assert (Hdone_mono : forall p, done R p -> done R' p) by (intros p Hd y Hy; apply Hd, Hsub, Hy).
   assert (Hdone_x : done R' x) by exact Hlt.
   assert (Hpend_le : forall p, pending R p -> compare_path p x <> Lt).
@@ -249,6 +255,12 @@ Proof.
     + destruct (bytes_eqb p x) eqn:Epx; [apply bytes_eqb_eq in Epx; subst; auto|].
       apply bytes_eqb_neq in Epx. destruct (Hnew _ Hd' Hp Epx) as (_ & HnA & _).
       exfalso. apply HnA. destruct Hu as (a & b & Ha & _ & <- & _). apply (in_map st_path); auto.
+  - (* P4 *)
+    intros p Hd' Hft. destruct (done_or_pending R p) as [Hd|Hp].
+    + rewrite Hlt_frame; [apply P4; auto|]. apply in_map_iff in Hx. destruct Hx as (y & <- & Hy). apply Hd; auto.
+    + destruct (bytes_eqb p x) eqn:Epx; [apply bytes_eqb_eq in Epx; subst; auto|].
+      apply bytes_eqb_neq in Epx. destruct (Hnew _ Hd' Hp Epx) as (_ & _ & HnB).
+      exfalso. apply HnB. destruct Hft as (b & Hb & <- & _). apply (in_map st_path); auto.
 Qed.
 
 
@@ -346,17 +358,17 @@ Proof.
 Qed.
 
 Lemma run_apply A' B' out : run A' B' out -> sorted A' -> sorted B' ->
-  forall D next, dinv D (A' ++ B') ->
+  forall D next, n0 <= next -> dinv D (A' ++ B') ->
   exists D' next', apply_all src out D next = (D', next', out, false) /\ dinv D' [].
 Proof.
   induction 1 as [|a A' B' out Ha HnB Hh HaB R IH|a A' B' out Ha HnB Hh HaB R IH
                  |b A' B' out Hb HnA HbA R IH|a b A' B' out Ha Hb E Hs R IH|a b A' B' out Ha Hb E Hs R IH];
-    intros SA SB D next HD.
+    intros SA SB D next Hnx HD.
   - exists D, next. split; [reflexivity|exact HD].
   - (* delete suppressed: nothing is applied *)
     pose proof (min_head_A _ _ _ SA HaB) as Hmin. pose proof (lt_rest_A _ _ _ SA HaB) as Hlt.
     apply sorted_inv in SA. destruct SA as [SA _].
-    apply (IH SA SB D next).
+    apply (IH SA SB D next Hnx).
     assert (Hx : In (st_path a) (paths ((a :: A') ++ B'))) by (left; reflexivity).
     assert (Hhd : forall p, p = st_path a \/ above (st_path a) p = true ->
               pending ((a :: A') ++ B') p /\ hidden_done ((a :: A') ++ B') p).
@@ -373,11 +385,12 @@ Proof.
       rewrite (dv_P2a _ _ HD _ H1 H2), (B_notin _ HnB). exact I.
     + intros p Hp _. destruct (Hhd p (or_intror Hp)) as [H1 H2]. apply (dv_P2a _ _ HD _ H1 H2).
     + intros (a' & b' & _ & Hb' & _ & Eb' & _). exfalso. eapply HnB; eauto.
+    + intros (b' & Hb' & Eb' & _). exfalso. eapply HnB; eauto.
   - (* delete *)
     pose proof (min_head_A _ _ _ SA HaB) as Hmin. pose proof (lt_rest_A _ _ _ SA HaB) as Hlt.
     apply sorted_inv in SA. destruct SA as [SA _].
     set (D1 := aremove_if (at_or_below (st_path a)) D).
-    destruct (IH SA SB D1 next) as (D' & n' & Eap & HD').
+    destruct (IH SA SB D1 next Hnx) as (D' & n' & Eap & HD').
     { apply (step_inv D D1 ((a :: A') ++ B') (A' ++ B') (st_path a)); auto.
       - intros y Hy. right. exact Hy.
       - intros p Hp. simpl in Hp. destruct Hp; auto.
@@ -390,7 +403,8 @@ Proof.
       - intros p Hp Hnrr. right. destruct (st_is_dir a) eqn:Ed.
         + exfalso. apply Hnrr. exists a. split; auto. split; auto.
         + eapply D0_below_nondir; eauto.
-      - intros (a' & b' & _ & Hb' & _ & Eb' & _). exfalso. eapply HnB; eauto. }
+      - intros (a' & b' & _ & Hb' & _ & Eb' & _). exfalso. eapply HnB; eauto.
+      - intros (b' & Hb' & Eb' & _). exfalso. eapply HnB; eauto. }
     exists D', n'. split; auto. simpl. fold D1. rewrite Eap. reflexivity.
   - (* add *)
     assert (Hmin : forall y, In y (A' ++ b :: B') -> compare_path (st_path y) (st_path b) <> Lt).
@@ -408,15 +422,18 @@ Proof.
     (* the entry written *)
     assert (Hent : exists e n1,
               apply_map src D next (KAdd, st_path b, Some b) = Some (aset (st_path b) e D, n1) /\
-              de_stat e = b /\ (forall bb, In (b, bb) B -> is_reg b = true -> de_bytes e = bb)).
+              de_stat e = b /\ (forall bb, In (b, bb) B -> is_reg b = true -> de_bytes e = bb) /\
+              n0 <= n1 /\ (is_hardlink b = false -> n0 <= de_ino e)).
     { simpl. rewrite Hold. destruct (is_hardlink b) eqn:Ehl.
       - destruct (link_target D _ b HD Hmin Hb Ehl) as (t & Et & Hdt & Hbt). rewrite Et, Hdt.
-        eexists; eexists. split; [reflexivity|]. split; [reflexivity|]. simpl. intros bb Hin _. apply Hbt; auto.
-      - eexists; eexists. split; [reflexivity|]. split; [reflexivity|]. simpl. intros bb Hin Hr.
-        rewrite (not_hardlink_wants _ Hr Ehl). apply src_at; auto. }
-    destruct Hent as (e & n1 & Eap & Es & Hbytes).
+        eexists; eexists. split; [reflexivity|]. split; [reflexivity|]. simpl.
+        split; [intros bb Hin _; apply Hbt; auto|]. split; [exact Hnx|discriminate].
+      - eexists; eexists. split; [reflexivity|]. split; [reflexivity|]. simpl. split.
+        + intros bb Hin Hr. rewrite (not_hardlink_wants _ Hr Ehl). apply src_at; auto.
+        + split; [|intros _; exact Hnx]. etransitivity; [exact Hnx|apply N.le_add_r]. }
+    destruct Hent as (e & n1 & Eap & Es & Hbytes & Hn1 & Hino).
     apply sorted_inv in SB. destruct SB as [SB _].
-    destruct (IH SA SB (aset (st_path b) e D) n1) as (D' & n' & Eall & HD').
+    destruct (IH SA SB (aset (st_path b) e D) n1 Hn1) as (D' & n' & Eall & HD').
     { apply (step_inv D _ (A' ++ b :: B') (A' ++ B') (st_path b)); auto.
       - intros y Hy. apply in_app_or in Hy. apply in_or_app. destruct Hy; auto. right. right. auto.
       - intros p Hp. unfold paths in Hp. rewrite map_app in Hp. apply in_app_or in Hp.
@@ -427,7 +444,10 @@ Proof.
       - intros p Hp. right. apply alookup_aset_other. apply compare_path_lt_neq, above_lt; auto.
       - intros p Hp (q & (Hq & _) & Eq). exfalso. eapply HnA; eauto.
       - intros p Hp _. left. apply alookup_aset_other. apply compare_path_lt_neq, above_lt; auto.
-      - intros (a' & b' & Ha' & _ & Ea' & _). exfalso. eapply HnA; eauto. }
+      - intros (a' & b' & Ha' & _ & Ea' & _). exfalso. eapply HnA; eauto.
+      - intros (b' & Hb' & Eb' & Hl' & _).
+        assert (b' = b) by (apply (sorted_unique LB); auto). subst b'.
+        exists e, b. rewrite alookup_aset_same. repeat split; auto. }
     exists D', n'. split; auto. cbn [apply_all]. rewrite Eap, Eall. reflexivity.
   - (* unchanged *)
     assert (HaB : forall y, In y B' -> plt a y).
@@ -442,7 +462,7 @@ Proof.
     pose proof (head_lookup D _ b HD Hx Hb) as Hold. rewrite <- E in Hold.
     destruct (D0_in a Ha) as (ba & i & HinA & ED0).
     apply sorted_inv in SA, SB. destruct SA as [SA _], SB as [SB _].
-    apply (IH SA SB D next).
+    apply (IH SA SB D next Hnx).
     apply (step_inv D D ((a :: A') ++ b :: B') (A' ++ B') (st_path a)); auto.
     + intros y Hy. apply in_app_or in Hy. destruct Hy; [right; apply in_or_app; auto|].
       right. apply in_or_app. right. right. auto.
@@ -457,6 +477,10 @@ Proof.
       * eapply Hn; eauto.
       * assert (b' = b) by (apply (sorted_unique LB); auto; congruence). subst b'.
         rewrite (same_file_is_dir _ _ _ Hs) in Hd. congruence.
+    + intros (b' & Hb' & Eb' & _ & [Hn'|(a' & Ha' & Ea' & Hs' & _)]).
+      * exfalso. eapply Hn'; eauto.
+      * assert (b' = b) by (apply (sorted_unique LB); auto; congruence).
+        assert (a' = a) by (apply (sorted_unique LA); auto). subst. simpl in Hs. congruence.
   - (* modify *)
     assert (HaB : forall y, In y B' -> plt a y).
     { intros y Hy. apply sorted_inv in SB. destruct SB as [_ HbB]. unfold plt. rewrite E. apply HbB; auto. }
@@ -476,12 +500,14 @@ Proof.
               apply_map src D next (KModify, st_path b, Some b) = Some (aset (st_path a) e D1, n1) /\
               de_stat e = b /\ (forall bb, In (b, bb) B -> is_reg b = true -> de_bytes e = bb) /\
               (D1 = D \/ (D1 = aremove_if (at_or_below (st_path a)) D /\ st_is_dir a <> st_is_dir b)) /\
-              (st_is_dir a = true -> st_is_dir b = false -> D1 = aremove_if (at_or_below (st_path a)) D)).
+              (st_is_dir a = true -> st_is_dir b = false -> D1 = aremove_if (at_or_below (st_path a)) D) /\
+              n0 <= n1 /\ (is_hardlink b = false -> (st_is_dir a && st_is_dir b) = false -> n0 <= de_ino e)).
     { simpl. rewrite <- E, Hold. simpl de_stat. destruct (st_is_dir b && st_is_dir a) eqn:Edd.
       - apply andb_true_iff in Edd. destruct Edd as [Ed1 Ed2].
         eexists; eexists; exists D. split; [reflexivity|]. split; [reflexivity|]. split.
         + simpl. intros bb _ Hr. apply is_reg_not_dir in Hr. congruence.
-        + split; auto. intros _ Hd. congruence.
+        + split; auto. split; [intros _ Hd; congruence|]. split; [exact Hnx|].
+          intros _ Hdd. rewrite Ed1, Ed2 in Hdd. discriminate.
       - assert (HD1 : forall X : dmap, (X = D \/ (X = aremove_if (at_or_below (st_path a)) D /\ st_is_dir a <> st_is_dir b)) ->
                   X = (if Bool.eqb (st_is_dir a) (st_is_dir b) then D else aremove_if (at_or_below (st_path a)) D) ->
                   (st_is_dir a = true -> st_is_dir b = false -> X = aremove_if (at_or_below (st_path a)) D)).
@@ -494,17 +520,18 @@ Proof.
         + destruct (link_target D _ b HD Hmin' Hb Ehl) as (t & Et & Hdt & Hbt). rewrite Et, Hdt.
           eexists; eexists; eexists. split; [reflexivity|]. split; [reflexivity|]. split.
           * simpl. intros bb Hin _. apply Hbt; auto.
-          * split; [exact HD1'|]. apply HD1; auto.
+          * split; [exact HD1'|]. split; [apply HD1; auto|]. split; [exact Hnx|discriminate].
         + eexists; eexists; eexists. split; [reflexivity|]. split; [reflexivity|]. split.
           * simpl. intros bb Hin Hr. rewrite (not_hardlink_wants _ Hr Ehl). rewrite E. apply src_at; auto.
-          * split; [exact HD1'|]. apply HD1; auto. }
-    destruct Hent as (e & n1 & D1 & Eap & Es & Hbytes & HD1 & HD1rr).
+          * split; [exact HD1'|]. split; [apply HD1; auto|]. split; [|intros _ _; exact Hnx].
+            etransitivity; [exact Hnx|apply N.le_add_r]. }
+    destruct Hent as (e & n1 & D1 & Eap & Es & Hbytes & HD1 & HD1rr & Hn1 & Hino).
     assert (Hrr : rr_at (st_path a) -> st_is_dir a = true /\ st_is_dir b = false).
     { intros Hr. destruct (rr_at_inv a Ha Hr) as (Hd & [Hn|(b' & Hb' & Eb' & Hdb')]).
       - exfalso. eapply Hn; eauto.
       - assert (b' = b) by (apply (sorted_unique LB); auto; congruence). subst b'. auto. }
     apply sorted_inv in SA, SB. destruct SA as [SA _], SB as [SB _].
-    destruct (IH SA SB (aset (st_path a) e D1) n1) as (D' & n' & Eall & HD').
+    destruct (IH SA SB (aset (st_path a) e D1) n1 Hn1) as (D' & n' & Eall & HD').
     { apply (step_inv D _ ((a :: A') ++ b :: B') (A' ++ B') (st_path a)); auto.
       - intros y Hy. apply in_app_or in Hy. destruct Hy; [right; apply in_or_app; auto|].
         right. apply in_or_app. right. right. auto.
@@ -530,7 +557,13 @@ Proof.
         + eapply D0_below_nondir; eauto.
       - intros (a' & b' & Ha' & Hb' & Ea' & Eb' & Hs').
         assert (a' = a) by (apply (sorted_unique LA); auto).
-        assert (b' = b) by (apply (sorted_unique LB); auto; congruence). subst. simpl in Hs. congruence. }
+        assert (b' = b) by (apply (sorted_unique LB); auto; congruence). subst. simpl in Hs. congruence.
+      - intros (b' & Hb' & Eb' & Hl' & Hch).
+        assert (b' = b) by (apply (sorted_unique LB); auto; congruence). subst b'.
+        exists e, b. rewrite alookup_aset_same. split; auto. split; auto. split; auto. split; auto.
+        apply Hino; auto. destruct Hch as [Hn'|(a' & Ha' & Ea' & _ & Hdd)].
+        + exfalso. eapply Hn'; eauto.
+        + assert (a' = a) by (apply (sorted_unique LA); auto; congruence). subst. exact Hdd. }
     exists D', n'. split; auto. cbn [apply_all]. rewrite Eap, Eall. reflexivity.
 Qed.
 
@@ -575,7 +608,7 @@ Hypothesis HwB : wf_listing LB.
 Hypothesis Hlinks : links_ok B.
 Hypothesis Hfaith : identity_faithful d A B.
 
-Lemma dinv_init : dinv d A B (dest_of A) (LA ++ LB).
+Lemma dinv_init n0 : dinv d A B n0 (dest_of A) (LA ++ LB).
 Proof.
   destruct HwA as [HsA HcA]. destruct HwB as [HsB HcB].
   assert (Hnot : forall p, done (LA ++ LB) p -> notin LA p /\ notin LB p).
@@ -589,6 +622,7 @@ Proof.
   - intros p _ (q & (Hq & _) & _ & Hd). destruct (Hnot _ Hd) as [HnA _]. exfalso. eapply HnA; eauto.
   - reflexivity.
   - intros p Hd (a & _ & Ha & _ & Ea & _). destruct (Hnot _ Hd) as [HnA _]. exfalso. eapply HnA; eauto.
+  - intros p Hd (b & Hb & Eb & _). destruct (Hnot _ Hd) as [_ HnB]. exfalso. eapply HnB; eauto.
 Qed.
 
 (* the transfer does not fail, hands exactly the diff to the writer, converges to the
@@ -598,16 +632,19 @@ Theorem receive_fresh_proof :
   ds_err r = false /\
   ds_changes r = diff idf d LA LB /\
   (forall p, view_equiv (alookup p (ds_map r)) (efind p B)) /\
-  (forall p, unchanged d A B p -> alookup p (ds_map r) = alookup p (dest_of A)).
+  (forall p, unchanged d A B p -> alookup p (ds_map r) = alookup p (dest_of A)) /\
+  (forall p, fresh_target d A B p -> fresh_entry B (N.of_nat (length A)) p (alookup p (ds_map r))).
 Proof.
   cbv zeta. destruct HwA as [HsA HcA]. destruct HwB as [HsB HcB].
   pose proof (diff_run idf d LA LB HsA HsB HcB (fun s => eq_refl)) as Hrun.
-  destruct (run_apply d A B HsA HcA HsB HcB Hlinks Hfaith _ _ _ Hrun HsA HsB (dest_of A) (N.of_nat (length A)) dinv_init)
+  destruct (run_apply d A B HsA HcA HsB HcB Hlinks Hfaith (N.of_nat (length A)) _ _ _ Hrun HsA HsB
+              (dest_of A) (N.of_nat (length A)) (N.le_refl _) (dinv_init _))
     as (D' & n' & Eap & HD').
   rewrite (receive_abs_unfold Fresh D' n' _ false Eap). simpl.
-  split; auto. split; auto. split.
-  - intros p. apply (dv_P1 _ _ _ _ _ HD'). intros y [].
-  - intros p Hu. apply (dv_P3 _ _ _ _ _ HD'); auto. intros y [].
+  split; auto. split; auto. split; [|split].
+  - intros p. apply (dv_P1 _ _ _ _ _ _ HD'). intros y [].
+  - intros p Hu. apply (dv_P3 _ _ _ _ _ _ HD'); auto. intros y [].
+  - intros p Hf. apply (dv_P4 _ _ _ _ _ _ HD'); auto. intros y [].
 Qed.
 
 End Top.
@@ -755,4 +792,28 @@ Lemma reqs_spec_none LA LB : reqs_spec DNone LA LB = map st_path (filter wants_c
 Proof.
   unfold reqs_spec. f_equal. apply filter_ext. intros b. unfold unchanged_b.
   destruct (lookup (st_path b) LA); simpl; rewrite andb_true_r; reflexivity.
+Qed.
+
+
+(* every inode class of the old destination is below |A| *)
+Lemma dest_from_ino_bound : forall A i (seen : amap N) bound,
+  (forall p j, alookup p seen = Some j -> j < bound) -> i + N.of_nat (length A) <= bound ->
+  forall p e, alookup p (dest_from A i seen) = Some e -> de_ino e < bound.
+Proof.
+  induction A as [|[st bs] A IH]; intros i seen bound Hseen Hb p e He; [discriminate|].
+  simpl dest_from in He. rewrite alookup_cons in He.
+  set (ino := if is_hardlink st then match alookup (st_linkname st) seen with Some j => j | None => i end else i) in *.
+  assert (Hino : ino < bound).
+  { unfold ino. simpl length in Hb. rewrite Nat2N.inj_succ in Hb.
+    destruct (is_hardlink st); [|lia]. destruct (alookup (st_linkname st) seen) as [j|] eqn:Ej; [eauto|lia]. }
+  destruct (bytes_eqb (st_path st) p).
+  - inversion He; subst. exact Hino.
+  - eapply (IH (i + 1) ((st_path st, ino) :: seen) bound); eauto.
+    + intros q j Hq. rewrite alookup_cons in Hq. destruct (bytes_eqb (st_path st) q); [inversion Hq; subst; auto|eauto].
+    + simpl length in Hb. rewrite Nat2N.inj_succ in Hb. lia.
+Qed.
+
+Lemma dest_of_ino_bound A p e : alookup p (dest_of A) = Some e -> de_ino e < N.of_nat (length A).
+Proof.
+  apply (dest_from_ino_bound A 0 [] (N.of_nat (length A))); [discriminate|lia].
 Qed.
